@@ -310,9 +310,20 @@ class RSocketBase(RSocket, RSocketInternal):
         logger().debug(str(exception), exc_info=exception)
         await self._handler.on_connection_error(self, exception)
 
+    def _fail_unsent_frames(self):
+        for queue in (self._send_queue, self._request_queue):
+            while not queue.empty():
+                self._fail_sent_future(queue.get_nowait())
+
+    # noinspection PyMethodMayBeStatic
+    def _fail_sent_future(self, frame: Frame):
+        if frame.sent_future is not None and not frame.sent_future.done():
+            frame.sent_future.set_exception(RSocketProtocolError(ErrorCode.CONNECTION_ERROR, data='Connection closed'))
+
     async def _on_connection_closed(self):
         try:
             self.stop_all_streams()
+            self._fail_unsent_frames()
         finally:
             try:
                 await self._handler.on_close(self)
@@ -424,7 +435,12 @@ class RSocketBase(RSocket, RSocketInternal):
                 self._before_sender()
                 while self.is_server_alive():
                     async with self._get_next_frame_to_send(transport) as frame:
-                        await transport.send_frame(frame)
+                        try:
+                            await transport.send_frame(frame)
+                        except BaseException:
+                            self._fail_sent_future(frame)  # never written: do not leave its awaitable pending
+                            raise
+
                         log_frame(frame, self._log_identifier(), 'Sent')
 
                         if frame.sent_future is not None and not frame.sent_future.done():
